@@ -483,7 +483,7 @@ impl<TX> DataSentSender<TX> {
             .pick_up(&predicate, flow_limit)
             .map(|(range, is_fresh, data)| (range.clone(), is_fresh, data, range.end == total_size))
             .or_else(|signals| {
-                if self.fin_state == FinState::Lost {
+                if self.fin_state == FinState::Lost && self.sndbuf.sent() == total_size {
                     self.fin_state = FinState::Sent;
                     Ok((total_size..total_size, false, vec![], true))
                 } else {
